@@ -67,7 +67,8 @@ def operand(classes=None, max_leaves=3, depth=True):
         M.related_tree(classes, max_leaves).map(lambda t: ["parse", t]),
         M.related_tree(classes, max_leaves).map(lambda t: ["parse", t]),
         M.related_tree(classes, max_leaves).map(lambda t: ["parse", t]),
-        M.related_tree(classes, max_leaves).map(lambda t: ["parse", t]),
+        M.factored_tree(classes).map(lambda t: ["parse", t]),
+        M.factored_tree(classes).map(lambda t: ["parse", t]),
         st.just(["empty"]),
         st.just(["any"]),
     )
